@@ -41,6 +41,8 @@ TY = {
     "listint": ("List[int]", st.lists(st.integers(0, 9), max_size=3)), "dict": ("Dict[str, int]", st.dictionaries(st.sampled_from(["p", "q"]), st.integers(0, 9), max_size=2)),
     "tuple": ("Tuple[int, str]", st.tuples(st.integers(0, 9), st.sampled_from(["a", "b"])).map(list)), "lit": ("Literal['x', 'y', 3]", st.sampled_from(["x", "y", 3])),
     "optlist": ("Optional[List[int]]", st.one_of(st.none(), st.lists(st.integers(0, 3), max_size=2))),
+    # a TypedDict (declared in the generated source) whose entries need conversion: list -> tuple, int -> float
+    "td": ("TD", st.fixed_dictionaries({"t": st.tuples(st.integers(0, 9), st.sampled_from(["a", "b"])).map(list), "f": st.sampled_from([2, 0.5, -1])}, optional={"n": st.integers(0, 9)})),
 }
 OPTIONAL = ("optint", "optstr", "optlist")
 PNAMES = ["a", "b", "c", "d", "e", "f"]
@@ -126,13 +128,17 @@ def params_src(sig):
         if k.startswith("kwonly") and not star:
             parts.append("*")
             star = True
-        dv = tuple(d) if t == "tuple" and d is not None else d
+        dv = tuple(d) if t == "tuple" and d is not None else _td(d) if t == "td" and d is not None else d
         parts.append(f"{n}: {TY[t][0]}" + (f" = {dv!r}" if "default" in k else ""))
     return ", ".join(parts)
 
 
+def _td(v):
+    return {**v, "t": tuple(v["t"]), "f": float(v["f"])}
+
+
 def source(case):
-    lines = ["from typing import *", "CALLS = []", ""]
+    lines = ["from typing import *", "CALLS = []", "", "class TD(TypedDict):", "    t: Tuple[int, str]", "    f: float", "    n: NotRequired[int]", ""]
     if case["kind"] == "class":
         init = case["sigs"]["__init__"]
         lines += ["class Comp:", f"    def __init__(self, {params_src(init)}):", f"        CALLS.append(('__init__', dict({', '.join(f'{p[0]}={p[0]}' for p in init)})))"]
@@ -222,6 +228,8 @@ def expected_call(sig, asg):
                 v = tuple(v)
             elif t == "float":
                 v = float(v)
+            elif t == "td":
+                v = _td(v)
         exp[n] = v
     return exp
 
